@@ -1,12 +1,14 @@
 // C18 (schedule-independent clauses): candidate bookkeeping, budgets, exactly-once evaluation, value association.
 // args: mode ...
 //  mode 0: CandidateManager  <dims> <ncand> <batch> <ops>     ops: string over {n (next), c (complete oldest running batch), r (re-assign candidates: odd generations the same list), R (re-assign: every entry kept or replaced by a new point, solver-chosen)}
-//  mode 1: constructSurrogate <grid spec> <parallel 0/1> <jobs> <batch>      budget from a symbolic real
+//  mode 1: constructSurrogate <grid spec> <parallel 0/1> <jobs> <batch> [latency]     budget from a symbolic real; latency 0 none | 1 the first point computed is slow (30 ms) | 2 every second point is slow (8 ms)
 //  mode 2: loadNeededValues addon <grid spec> <threads>
 // built with -fno-access-control (CandidateManager internals are read for the invariants)
 #include "TasmanianAddons.hpp"
 #include "tgrid.hpp"
 #include <mutex>
+#include <thread>
+#include <chrono>
 #include <atomic>
 
 static int mode0(int argc, char **argv){
@@ -60,16 +62,17 @@ static int mode0(int argc, char **argv){
 
 struct Model {
   int d, outs; std::mutex m; std::map<std::vector<double>, int> ids; std::map<std::vector<double>, int> count; std::map<std::vector<double>, std::vector<double>> vals;
-  std::vector<std::atomic<int>> busy; bool overlap = false; int total = 0; bool symbolic;
+  std::vector<std::atomic<int>> busy; bool overlap = false; int total = 0; bool symbolic; int latency = 0;
   Model(int dims, int o, int threads, bool sym) : d(dims), outs(o), busy(threads + 1), symbolic(sym) { for (auto &b : busy) b = 0; }
   void eval(const double *x, double *y, size_t tid){
     if (tid < busy.size()){ if (busy[tid].fetch_add(1) != 0) overlap = true; }
-    std::vector<double> p(x, x + d);
+    std::vector<double> p(x, x + d); int slow = 0;
     { std::lock_guard<std::mutex> lk(m);
       int id; auto it = ids.find(p); if (it == ids.end()){ id = (int) ids.size(); ids[p] = id; } else id = it->second;
       count[p]++; total++;
       std::vector<double> v(outs); for (int k=0;k<outs;k++){ double dv = SymModel::dflt(p, k); v[k] = symbolic ? fpsym_symbolic(dv, 1000 + id * outs + k, -1.0, 1.0) : dv; y[k] = v[k]; }
-      vals[p] = v; }
+      vals[p] = v; slow = (latency == 1 && id == 0) ? 30 : ((latency == 2 && id % 2 == 1) ? 8 : 0); }
+    if (slow) std::this_thread::sleep_for(std::chrono::milliseconds(slow));   // skewed model latency (outside the lock)
     if (tid < busy.size()) busy[tid].fetch_sub(1);
   }
 };
@@ -104,7 +107,7 @@ int main(int argc, char **argv){
     int parallel = atoi(argv[3]), jobs = atoi(argv[4]), batch = atoi(argv[5]);
     int budget = 1 + fpsym_choice(3, 8, 4);   // 1..8 points
     fpsym_note("budget", budget);
-    Model mod(d, g.outputs, jobs + 1, g.family != "wavelet"); bool bad_y_size = false;
+    Model mod(d, g.outputs, jobs + 1, g.family != "wavelet"); bool bad_y_size = false; mod.latency = argc > 6 ? atoi(argv[6]) : 0;
     auto model = [&](std::vector<double> const &x, std::vector<double> &y, size_t tid)->void{
       size_t np = x.size() / d;
       // documented contract (no initial guess): on entry y already has one strip of outputs per sample; the model writes in place
